@@ -6,6 +6,7 @@ the implementation's output (dict per thread, set of live keys, online distinctn
 -> known findings (stale value after delete+create, ABA on the key free list) replayed and reported as
 KNOWN-FINDING; everything else that breaks the property is a VIOLATION."""
 import os, json, re, subprocess
+import shutil
 import vlib
 
 VF = ["Tls/TlsTreeModel.v", "Tls/TlsKeysModel.v", "Tls/TlsSysModel.v"]
@@ -24,8 +25,25 @@ def unit_flags():
     return vlib.lib_cflags() + ["-O0", "-g", "-I" + H, "-Wl,--wrap=real_malloc", "-Wl,--wrap=real_free"]
 
 
+
+def get_lib(ctx):
+    """private copy of the library archive: the shared cache under build/lib is pruned by concurrent
+    checks of other properties, which can remove the archive between build_lib() and the link"""
+    last = None
+    for _ in range(6):
+        lib = vlib.build_lib()
+        dst = os.path.join(ctx.dir, "libmyth.a")
+        try:
+            shutil.copyfile(lib, dst + ".tmp")
+            os.replace(dst + ".tmp", dst)
+            return dst
+        except OSError as e:
+            last = e
+    raise vlib.BuildError("library archive vanished repeatedly: %s" % last)
+
+
 def build(ctx, want_lib=True):
-    lib = vlib.build_lib()
+    lib = get_lib(ctx)
     libs = [lib, "-lpthread", "-ldl", "-lrt"]
     unit = vlib.cc(os.path.join(ctx.dir, "c10_tls_unit"), [os.path.join(H, "c10_tls_unit.c")], flags=unit_flags(), libs=libs)
     libexe = None
